@@ -173,11 +173,14 @@ func main() {
 				vs[i] = strconv.Itoa(v)
 			}
 			fmt.Fprintf(w, "(run %s (ret (%s) %d %d %d))\n", fsText, strings.Join(vs, " "), e, leaked, alldone)
+			if leaked > 0 || alldone == 0 {
+				deadlocks++ // blocked goroutines stay behind: a few such cases are enough
+			}
 		case <-time.After(3 * time.Second):
 			fmt.Fprintf(w, "(run %s deadlock)\n", fsText)
 			deadlocks++
 		}
-		if deadlocks >= 3 {
+		if deadlocks >= 4 {
 			break
 		}
 	}
